@@ -135,7 +135,7 @@ def load_known(prop_id):
         kv = {}
         words = []
         for t in toks:
-            if "=" in t and not words and t.split("=", 1)[0] in (
+            if "=" in t and t.split("=", 1)[0] in (
                 "property",
                 "id",
                 "signature",
